@@ -13,7 +13,11 @@ VARIABLES l,      \* next record to consume
 \* m (from OrderedMap) = state OBSERVED on the real map after the last consumed record
 
 RankT == [k00 |-> 0, k01 |-> 1, k02 |-> 2, k03 |-> 3, k04 |-> 4, k05 |-> 5,
-          k06 |-> 6, k07 |-> 7, k08 |-> 8, k09 |-> 9, k10 |-> 10, k11 |-> 11]
+          k06 |-> 6, k07 |-> 7, k08 |-> 8, k09 |-> 9, k10 |-> 10, k11 |-> 11,
+          k12 |-> 12, k13 |-> 13, k14 |-> 14, k15 |-> 15, k16 |-> 16, k17 |-> 17,
+          k18 |-> 18, k19 |-> 19, k20 |-> 20, k21 |-> 21, k22 |-> 22, k23 |-> 23]
+\* a comparison with many ties (three classes): exercises the stability of Sort
+CoarseT(a, b) == (RankT[a] % 3) < (RankT[b] % 3)
 AscT(a, b)  == RankT[a] < RankT[b]
 DescT(a, b) == RankT[a] > RankT[b]
 
@@ -22,7 +26,8 @@ FromPairs(ps) == [i \in 1..Len(ps) |-> <<ps[i].k, ps[i].v>>]
 ApplyT(s, r) ==
   CASE r.op = "set"       -> SetF(s, r.k, r.v)
     [] r.op = "remove"    -> RemoveF(s, r.k)
-    [] r.op = "sort"      -> IF r.by = "asc" THEN SortByF(AscT, s) ELSE SortByF(DescT, s)
+    [] r.op = "sort"      -> (CASE r.by = "asc" -> SortByF(AscT, s) [] r.by = "desc" -> SortByF(DescT, s)
+                               [] r.by = "coarse" -> SortByF(CoarseT, s))
     [] r.op = "unmarshal" -> UnmarshalF(s, FromPairs(r.pairs))
     [] r.op = "filter"    -> FilterF(LAMBDA k, v : v = r.keep, s)
     [] r.op = "map"       -> MapF(LAMBDA k, v : IF k = r.k THEN 3 - v ELSE v, s)
